@@ -89,7 +89,7 @@ def main(ctx):
         ctx.expect_vacuity("replay class " + need, ctx.classes.get(need, 0))
     # T ---------------------------------------------------------------------------------------
     trace = ctx.path("trace.ndjson")
-    n = 20000 if thorough else 4000
+    n = 60000 if thorough else 4000
     ctx.harness(["record", "C20", "--out", trace, "--n", n,
                  "--opt", "mul=%d" % (n // 8), "--opt", "div=%d" % (n // 8)], timeout=900)
     events = validate(ctx, trace)
